@@ -26,7 +26,9 @@ def gen_kwargs(rng: random.Random, gen: str, r: int, c: int, constrained_bias: f
             if gen == "gen_dfs_percolation" or rng.random() < 0.6:
                 kw["accessible_cells"] = rng.choice([0, 1, 2, max(0, total - 1), total, total + 3, rng.randint(0, total + 2)])
             else:
-                kw["accessible_cells"] = rng.choice([0.0, 1.0, 0.5, round(rng.random(), 3)])
+                # (two-decimal proportions whose product with small cell counts is an integer in exact arithmetic but falls just
+                # above or below it in binary floating point: 0.55 * 20, 0.07 * 100, 0.29 * 100, 0.35 * 20 ...)
+                kw["accessible_cells"] = rng.choice([0.0, 1.0, 0.5, round(rng.random(), 3), rng.choice([0.55, 0.35, 0.15, 0.07, 0.28, 0.29, 0.57, 0.1, 0.3, 0.7])])
         if rng.random() < 0.4:
             if gen == "gen_dfs_percolation" or rng.random() < 0.6:
                 kw["max_tree_depth"] = rng.choice([0, 1, 2, 3, r + c, 2 * total, rng.randint(0, 2 * total + 2)])
